@@ -55,6 +55,9 @@ def rule_set_id(ctx, cfg, F, backend):
             if st["s"] == "assign" and st["lhs"]["l"] == 0 and st["rv"]["r"] == "agg" and st["rv"]["kind"].get("variant") == "Ok":
                 ret_roots |= {(r.kind, r.id, r.field_names()[:1]) for r in tr.roots_of_operand(st["rv"]["a"][0])}
     want = {("param", 1, (cfield,))}
+    # a plain counter is incremented in place; the flow-insensitive slice then also sees its own `+ c`
+    _strip = lambda rs: {r for r in rs if not (r[0] == "op" and str(r[1]).startswith("Add"))}
+    ret_roots = _strip(ret_roots)
     if ret_roots != want:
         R.violate("%s:returned-id-origin" % add.path, "the id returned by add does not come (only) from the counter: %s" % sorted(ret_roots), add.path, add.loc(0), config=cfg)
     else:
@@ -71,7 +74,7 @@ def rule_set_id(ctx, cfg, F, backend):
     if not stored:
         R.violate("%s:no-stored-id" % add.path, "add stores no id for the member", add.path, add.loc(0), config=cfg)
     for what, op, b in stored:
-        rs = {(r.kind, r.id, r.field_names()[:1]) for r in tr.roots_of_operand(op)}
+        rs = _strip({(r.kind, r.id, r.field_names()[:1]) for r in tr.roots_of_operand(op)})
         if rs == want:
             R.ok("add stores the same next() result in %s" % what, add.loc(b), cfg)
         else:
